@@ -1106,6 +1106,10 @@ def solve(objfun, x0, h=None, lh=None, prox_uh=None, argsf=(), argsh=(), argspro
                 exit_info = ExitInformation(EXIT_INPUT_ERROR,
                                             "Must have exactly one of additive or multiplicative noise estimate")
 
+    if exit_info is None and npt > (n + 1) * (n + 2) // 2 and not params("init.random_initial_directions"):
+        exit_info = ExitInformation(EXIT_INPUT_ERROR,
+                                    "npt > (n+1)(n+2)/2 needs init.random_initial_directions=True")
+
     if exit_info is None and params("init.run_in_parallel") and not params("init.random_initial_directions"):
         exit_info = ExitInformation(EXIT_INPUT_ERROR,
                                     "Parallel initialisation not yet developed for coordinate initial directions")
